@@ -46,6 +46,20 @@ def probes(ref, rng):
         for g in set(ref.face_neighbours(fi)):
             fpairs.append((fi, g))
         fpairs.append((fi, rng.randrange(len(F))))
+    # faces that touch fi at vertices only (no common side), those sharing two or more vertices first (e.g. across the diagonal of a quad)
+    vfaces = {}
+    for fi, f in enumerate(F):
+        for v in f:
+            vfaces.setdefault(v, set()).add(fi)
+    for fi, f in enumerate(F):
+        nb = set(ref.face_neighbours(fi))
+        touch = {}
+        for v in f:
+            for g in vfaces[v]:
+                if g != fi and g not in nb:
+                    touch[g] = touch.get(g, 0) + 1
+        for g in sorted(touch, key=lambda g: (-touch[g], g))[:3]:
+            fpairs.append((fi, g))
     vf = []
     for fi, f in enumerate(F):
         for v in f:
